@@ -37,25 +37,27 @@ def rule_r1(ctx):
     if kw is None:
         raise AnalysisError("Adjustments.__init__ has no **kw")
     preds = []
+    g = cfg_of(f)
     for st in f.node.body:
         if isinstance(st, ast.If) and any(isinstance(x, ast.Raise) for x in st.body):
-            atoms = bool_atoms(st.test)
+            test = g.test_of(st)
+            atoms = bool_atoms(test)
             pat = re.compile(r"^'([a-z_]+)' in %s$" % re.escape(kw))
             if atoms and all(pat.match(a) for a in atoms):
                 names = [pat.match(a).group(1) for a in atoms]
                 if all(n in GROUPS for n in names):
                     exc = [x for x in st.body if isinstance(x, ast.Raise)]
                     is_value_error = exc and isinstance(exc[0].exc, ast.Call) and dotted(exc[0].exc.func) == "ValueError"
-                    preds.append((st, atoms, names, is_value_error))
+                    preds.append((st, atoms, names, is_value_error, test))
     ctx.r.floor(rid, len(preds), 3, "exclusion predicates")
     bad_rows = []
     rows = 0
     for present in itertools.product([False, True], repeat=5):
         env = dict(zip(GROUPS, present))
         raised = False
-        for (st, atoms, names, ve) in preds:
+        for (st, atoms, names, ve, test) in preds:
             asg = {a: env[n] for a, n in zip(atoms, names)}
-            if bool_eval(st.test, asg):
+            if bool_eval(test, asg):
                 raised = True
                 if not ve:
                     bad_rows.append((env, "raises something else than ValueError"))
@@ -74,7 +76,7 @@ def rule_r1(ctx):
     # the predicates come before any assignment
     g = cfg_of(f)
     sets = [n for n, c in find_calls(g, lambda c: dotted(c.func) == "setattr")]
-    for (st, _, _, _) in preds:
+    for (st, _, _, _, _) in preds:
         tn = [n for n in g.nodes if n.kind == "test" and n.stmt is st]
         if tn and all(g.dominates(tn[0], s) for s in sets):
             continue
@@ -96,7 +98,7 @@ def rule_r2(ctx):
             if isinstance(t, ast.Compare) and isinstance(t.ops[0], (ast.NotIn, ast.In)) and norm(t.left) == key and "_param_map" in norm(t.comparators[0]):
                 unknown_branch_pol = isinstance(t.ops[0], ast.NotIn)
                 if pol != unknown_branch_pol:
-                    other = [x for x in g.nodes if x.kind == "branch" and x.ast is t and x.polarity == unknown_branch_pol]
+                    other = [x for x in g.nodes if x.kind == "branch" and x.ast is getattr(t, "_guard_of", t) and x.polarity == unknown_branch_pol]
                     if other and leads_only_to_raise(g, other[0]):
                         ok = True
         if ok:
